@@ -145,11 +145,10 @@ where
             fn shutdown(&mut self) -> IoResult<()> {
                 use nix::sys::socket::{shutdown, Shutdown};
                 use std::os::unix::prelude::AsRawFd;
-                match shutdown(self.dfd.as_raw_fd(), Shutdown::Write) {
-                    // the peer is already gone: nothing left to tell it
-                    Ok(()) | Err(nix::errno::Errno::ENOTCONN) => Ok(()),
-                    Err(e) => Err(std::io::Error::from_raw_os_error(e as i32)),
-                }
+                // (a destination that has reset the connection makes this fail with ENOTCONN, exactly as
+                // the buffered variant's shutdown() does: both record the tunnel as ended by an error)
+                shutdown(self.dfd.as_raw_fd(), Shutdown::Write)
+                    .map_err(|e| std::io::Error::from_raw_os_error(e as i32))
             }
         }
 
